@@ -1,14 +1,14 @@
 #!/bin/sh
 # tools/intake.sh <ID> [offset]  — take the two changes a round-2 sub-agent left in /tmp/wt2-<ID>/_seeded/{1,2},
 # confirm them (suite + demo) and run our quick check(s) against them.
-id=$1; off=${2:-2}
+id=$1; off=${2:-2}; pre=${3:-wt2}
 cd "$(dirname "$0")/.."
 for i in 1 2; do
   n=$((i + off))
   mkdir -p /dev/shm/seeded-raw/$id-$n
-  cp /tmp/wt2-$id/_seeded/$i/patch.diff /tmp/wt2-$id/_seeded/$i/demo.py /tmp/wt2-$id/_seeded/$i/notes.md /dev/shm/seeded-raw/$id-$n/ 2>/dev/null
+  cp /tmp/$pre-$id/_seeded/$i/patch.diff /tmp/$pre-$id/_seeded/$i/demo.py /tmp/$pre-$id/_seeded/$i/notes.md /dev/shm/seeded-raw/$id-$n/ 2>/dev/null
   tools/confirm_seeded.py /dev/shm/seeded-raw/$id-$n $id $n --no-checks > /dev/shm/seeded-raw/$id-$n.log 2>&1
   grep -E '"confirmed"|suite_tail|apply_error' /dev/shm/seeded-raw/$id-$n.log | tr -d '\n'; echo " $id-$n"
 done
-git -C /repo worktree remove --force /tmp/wt2-$id 2>/dev/null
+git -C /repo worktree remove --force /tmp/$pre-$id 2>/dev/null
 for i in 1 2; do n=$((i + off)); [ -d seeded/$id-$n ] && tools/run_seeded.py $id-$n; done
